@@ -397,14 +397,14 @@ func init() {
 		ID: "C06", Level: "exploration",
 		Rule:        "PRNG sequences mixing candidate changes, subscriptions (new, repeated, contract without newEpoch/1), reject-flag flips of 0-5 probe subscriber contracts and ticks with epoch arguments {smaller, equal, +1, +2, +5, 0, 2^31, values within 13 of 2^7/2^8/2^15/2^16/2^24, an early jump onto each value 243..259}, 1-2 transactions per block, committees 1/3/4/7; a model predicts success and, per tick, the exact Tick sequence of the probes; epoch, lastEpochBlock, netmap, snapshot(0), listNodes, both candidate lists are read after every block. distinct = (operation, signer class, reason/outcome, subscriber and candidate counts); every case is a state-changing request.",
 		Assumptions: tb, Batches: tier(192, 2048), Helpers: []string{"probe", "holder"}, Chunk: 8,
-		Floors: []string{"tick-accepted", "tick-refused:no-witness", "tick-refused:stale-epoch", "tick-refused:subscriber-rejects", "tick-with>=3-probes", "duplicate-subscription", "two-ticks-in-one-block", "early-jump-across-a-byte-boundary", "jump-next-to-an-encoding-boundary"},
+		Floors: []string{"tick-accepted", "tick-refused:no-witness", "tick-refused:stale-epoch", "tick-refused:subscriber-rejects", "tick-with>=3-probes", "duplicate-subscription", "two-ticks-in-one-block", "early-jump-across-a-byte-boundary", "jump-next-to-an-encoding-boundary", "tick-refused:subscriber-destroyed"},
 		Run:    runC06,
 	})
 	runner.Register(&runner.Check{
 		ID: "C07", Level: "exploration",
 		Rule:        "PRNG sequences of addPeer/addPeerIR/addNode/updateState/updateStateIR/deleteNode over 6 node keys driven through all presence classes (legacy only, structured only, both, neither), states {0,1,2,3,4,-1,255}, malformed keys and short blobs, signer combinations {node+Alphabet, node only, Alphabet only, other node+Alphabet, node+Majority, nobody}; a model predicts effect/refusal and notifications; both candidate lists are read after every call. distinct = (method, signers, presence/state/key-length class, outcome).",
 		Assumptions: tb, Batches: tier(192, 2048), Chunk: 8,
-		Floors: []string{"addPeer@neither", "addPeerIR@legacy", "addNode@neither", "addNode@legacy", "updateState@both", "updateStateIR@v2", "deleteNode@both", "updateState:inert", "addNode:inert"},
+		Floors: []string{"addPeer@neither", "addPeerIR@legacy", "addNode@neither", "addNode@legacy", "updateState@both", "updateStateIR@v2", "deleteNode@both", "updateState:inert", "addNode:inert", "re-announced-with-identical-information-while-not-online"},
 		Run:    runC07,
 	})
 	runner.Register(&runner.Check{
